@@ -26,6 +26,8 @@ def tweak(rng, sc):
     if rng.random() < 0.5:
         sc = gen.gen_rollout(rng)
     cl = rng.choice([["data"], ["data", "logs"], ["a", "b", "c"], ["home"]])
+    if not sc["api"].get("set") or not sc["cache"].get("set"):
+        return None
     for w in (sc["api"], sc["cache"]):
         w["set"]["claims"] = cl
     for w in (sc["api"], sc["cache"]):
